@@ -1,4 +1,5 @@
 """C08 — displayed picture: address decode, pixel/attribute selection, flash, shadow coherence, bank selection."""
+import re
 from . import corecommon as cc
 from . import c04
 from zx import term as tm
@@ -36,6 +37,7 @@ def run(chk):
     new_frame(chk, prog)
     local_bank(chk, prog, names)
     shadow_coherence(chk, prog, names)
+    refresh_covers_banks(chk, prog, names)
     return chk.finish(EXPL)
 
 
@@ -441,6 +443,65 @@ def shadow_coherence(chk, prog, names):
                 {"exits": [fn.loc(body["blocks"][b]["t"].get("span")) for b in leaks]})
     chk.count("ram-mutation-sites", sites)
     chk.floor("ram-mutation-sites", 6)
+
+
+def refresh_covers_banks(chk, prog, names):
+    """T-PAIR: the resynchronisation routine that SYNC relies on really feeds EVERY screen bank of the machine
+    (48K: page 0; 128K: pages 5 and 7, the two ULA screens) byte for byte from RAM: update(i, bank, ram_page(bank)[i])
+    for consecutive i from 0 until the page is exhausted.  The loops are unrolled a few iterations over an opaque page."""
+    UPDATE = prog.fn_path("rustzx_core", "ZXScreen::<FB>::update")
+    RPD = prog.fn_path("rustzx_core", "ZXMemory::ram_page_data")
+    want = {"Sinclair48K": {0}, "Sinclair128K": {5, 7}}
+    key = "T-PAIR/ZXController::refresh_memory_dependent_devices"
+    for m in names.machine_variants():
+        w = Walker(prog)
+        w.opaque_paths.add(UPDATE)
+        w.opaque_paths.add(RPD)
+        w.max_branches = 14
+
+        def hook(w_, st, path, a, d, wh):
+            if path == UPDATE:
+                return EffectResult(None, havoc=False)
+            return None
+        w.effect_hook = hook
+        st = cc.controller_state(w, prog, names, m)
+        rs = w.run(prog.fn(names.ctl("refresh_memory_dependent_devices")), [Ref(cc.CTL, (), True)], genv=cc.GENV, state=st)
+        rets = [r for r in rs if r.outcome == "return"]
+        bad = [r for r in rs if r.outcome not in ("return", "cut")]
+        if bad or not rets:
+            chk.undecided_(key + "/%s/paths" % m, "exploration of the refresh routine failed: %s" % [(r.outcome, r.detail) for r in (bad or rs)][:2])
+            continue
+        for r in rets:
+            pages = {}     # handle number of the returned slice -> bank constant
+            banks_read = []
+            pending = None
+            order_ok = True
+            nxt = {}
+            for e in r.trace:
+                if e.path == RPD:
+                    b = e.args[1]
+                    pending = b.val if isinstance(b, T) and b.is_const() else None
+                    banks_read.append(pending)
+                elif e.path == UPDATE:
+                    rel, bank, data = e.args[1], e.args[2], e.args[3]
+                    name = tm.show(data) if isinstance(data, T) else str(data)
+                    mm = re.match(r"ret(\d+):ram_page_data\*\[(0x[0-9A-Fa-f]+|\d+)\]$", name)
+                    if not mm or not (isinstance(rel, T) and rel.is_const() and isinstance(bank, T) and bank.is_const()):
+                        order_ok = False
+                        continue
+                    h, i = int(mm.group(1)), int(mm.group(2), 0)
+                    if h not in pages:
+                        pages[h] = pending
+                    if rel.val != i or nxt.get(h, 0) != i or pages.get(h) != bank.val:
+                        order_ok = False
+                    nxt[h] = i + 1
+            got = set(banks_read)
+            chk.check(got == want.get(m), key + "/%s/banks" % m,
+                      "%s: the refresh routine re-reads RAM pages %s; the screen of this machine shows pages %s — a page that is not refreshed keeps a stale picture after a snapshot load or poke" % (
+                          m, sorted(x if x is not None else "<runtime value>" for x in got) if None not in got else ["<runtime value>"], sorted(want.get(m))))
+            chk.check(order_ok, key + "/%s/bytes" % m, "%s: refresh does not feed update(i, bank, page[bank][i]) for consecutive i from 0" % m)
+        chk.count("refresh-paths", len(rets))
+    chk.floor("refresh-paths", 4)
 
 
 def callers_pair(prog, cg, fn, SYNC, depth):
